@@ -30,6 +30,7 @@ RULE = (
     "combinations + counts"
 )
 RULE += " " + "Added after the seeding rounds: the stream is handed over as list, one-shot iterator, generator and NoteData object in rotation; include_note_types is the caller's own object (plain set or frozenset), the same object for every call on a stream, and must come back unchanged."
+RULE += " " + "Round 6: part 'long-holds' - a hold or roll kept open while 1100 / 1500 / 3200 other notes go by, with a short hold inside it."
 ASSUMPTIONS = [
     "reference model vf/model_group.py (two passes, written from the documentation and the property statement)",
     "streams have unique (beat, column) positions, as every stream read from note data has",
